@@ -132,11 +132,12 @@ Theorem C05_natmass_of_element : forall a b, avariant a b ->
 Proof. exact natmass_of_element. Qed.
 Print Assumptions C05_natmass_of_element.
 
-(* its second hypothesis fails for the ions of D and T: they have no table, H+ has one *)
-Theorem C05_isotope_ion_table_refuted : exists a b, avariant a b /\
-  sftable EB05 nff_files a = NoneVal /\ exists t, sftable EB05 nff_files b = Val t.
-Proof. exact isotope_ion_table_refuted. Qed.
-Print Assumptions C05_isotope_ion_table_refuted.
+(* its second hypothesis holds for the table lookup of the model: every atom of an element
+   (isotopes, ions, the ions of D and T) uses the element's table *)
+Theorem C05_same_table_for_variants : forall a b, avariant a b ->
+  sftable EB05 nff_files a = sftable EB05 nff_files b.
+Proof. exact same_table_for_variants. Qed.
+Print Assumptions C05_same_table_for_variants.
 
 (* ---------------------------------------------------------------- f0 *)
 (* every entry of f0_WaasKirf.dat: sum a_i + c is within 0.05 of Z - charge *)
